@@ -18,6 +18,7 @@ import (
 	"context"
 	"errors"
 	"fmt"
+	"slices"
 
 	"deps.dev/util/resolve/version"
 )
@@ -102,6 +103,8 @@ func (lc *LocalClient) AddVersion(v Version, deps []RequirementVersion) {
 	SortVersions(versions)
 	lc.PackageVersions[v.PackageKey] = versions
 
+	// Keep a copy: the caller may go on using (and reusing) its slice.
+	deps = slices.Clone(deps)
 	SortDependencies(deps)
 	lc.imports[v.VersionKey] = deps
 
